@@ -75,7 +75,7 @@ def handle (line : String) : String :=
     | some file, some rs =>
       let out := openFile file rs (o.str "shape" == "chain")
       let sh := o.str "shape"
-      if out.startsWith "decode=ok" && ((sh != "std" && sh != "ed") || out != expectOpened o) then s!"oracle-mismatch {out}"
+      if sh != "free" && out.startsWith "decode=ok" && ((sh != "std" && sh != "ed") || out != expectOpened o) then s!"oracle-mismatch {out}"
       else out
     | _, _ => "bad-op"
   | "mut" =>
